@@ -10,3 +10,19 @@ package function
 //@ focus out-of-scope (not (callres "IsPkgInScope"))
 //@ ensures silent-when-out-of-scope (= (calls "effect:") 0)
 //@ ensures empty-result-when-out-of-scope (and (= (len result0) 0) (isnil result1))
+
+//@ method go/ast.Expr Pos fn
+//@ method go/ast.Node Pos fn
+
+//@ -- C20: a trigger of a contracted callee is duplicated per call site: a parameter producer is re-keyed to the
+//@ -- call-site argument, a return consumer is re-keyed to the call-site result AND gated on the call-site argument
+//@ -- site (the controller); both apply when both flags are set.
+//@ func duplicateFullTrigger
+//@ prop C20
+//@ ensures producer-rekeyed-to-call-site (=> isParamProducer (= result.Producer (call |go.uber.org/nilaway/annotation.DuplicateParamProducer| trigger.Producer (local argLoc))))
+//@ ensures producer-shared-otherwise (=> (not isParamProducer) (= result.Producer trigger.Producer))
+//@ ensures consumer-rekeyed-to-call-site (=> isReturnConsumer (= result.Consumer (call |go.uber.org/nilaway/annotation.DuplicateReturnConsumer| trigger.Consumer (local retLoc))))
+//@ ensures consumer-shared-otherwise (=> (not isReturnConsumer) (= result.Consumer trigger.Consumer))
+//@ ensures gated-on-the-argument-site (=> isReturnConsumer (= result.Controller (call |go.uber.org/nilaway/annotation.NewCallSiteParamKey| callee 0 (local argLoc))))
+//@ ensures ungated-otherwise (=> (not isReturnConsumer) (= result.Controller nil))
+//@ ensures locations-from-the-call (and (= (local argLoc) (call |(*go.uber.org/nilaway/util/analysishelper.EnhancedPass).PosToLocation| pass (mcall Pos (idx callExpr.Args 0)))))
